@@ -75,6 +75,7 @@ def run(c):
     r1(c, readers, n_logic)
     r2(c)
     r3(c)
+    r4(c)
 
 
 def r1(c, readers, n_logic):
@@ -231,3 +232,46 @@ def r3(c):
                     f"the pre rendered here is element {bad[1] if bad else ''} of {bad[0] if bad else ''}(...), which already passed it to the patch builder: logic functions have "
                     "rewritten its buckets (e.g. a removed block shown as affected)", key_text="render-consumed-pre")
     c.floor("C16.R3", "render sites in annet.api", n_sites, 1)
+
+
+def r4(c):
+    from sa.effects import Effects
+    repo = c.repo
+    c.rule("C16.R4", "the un-stripped diff reaches the patch builder intact: in both front ends, no function that may mutate its argument (may-mutate analysis through aliases, "
+                     "element iteration and resolved callees) receives the make_diff result before make_pre(<that diff>) is evaluated for patch_from_pre — in-place pruning of "
+                     "nested unchanged rows would reach the patch through the shared child lists")
+    m = repo.module(API)
+    eff = Effects(repo, mode="contents", max_depth=5)
+    for name, q in (("device", "_diff_and_patch"), ("file", "_read_old_new_diff_patch")):
+        fn = repo.func(API, q, canon=False)
+        c.count("functions")
+        pv = Provenance(fn)
+        mds = [x for x in calls_in(fn) if call_name(x).split(".")[-1] == "make_diff"]
+        pcs = [x for x in calls_in(fn) if call_name(x).split(".")[-1] == "patch_from_pre"]
+        if len(mds) != 1 or len(pcs) != 1:
+            # C16.R2 reports a front end that does not build through make_diff / patch_from_pre
+            continue
+        # the make_pre call feeding patch_from_pre
+        pre_arg = kwarg(pcs[0], "pre", 0)
+        pre_calls = [x for x in ([pre_arg] + pv.origin_calls(pre_arg, through_calls=False)) if isinstance(x, ast.Call) and call_name(x).split(".")[-1] == "make_pre"] if pre_arg is not None else []
+        if not pre_calls:
+            raise AnchorError(f"{q}: make_pre feeding patch_from_pre not found")
+        use_line = min(x.lineno for x in pre_calls)
+        bad = None
+        for x in calls_in(fn):
+            if x is mds[0] or x in pre_calls or x.lineno >= use_line:
+                continue
+            for i, a in enumerate(x.args):
+                if isinstance(a, ast.Name) and any(o is mds[0] for o in pv.origin_calls(a, through_calls=False)) and isinstance(pv.resolve_alias(a), ast.Call) and pv.resolve_alias(a) is mds[0]:
+                    r = repo.resolve_call(m, x)
+                    if r and isinstance(r[2], ast.FunctionDef):
+                        ps = [p.arg for p in r[2].args.args]
+                        mut = eff.mutated_params(r[0], r[1], r[2])
+                        if i < len(ps) and ps[i] in mut:
+                            bad = (x, r[1], mut[ps[i]][0])
+        if bad:
+            x, callee, site = bad
+            c.violated("C16.R4", repo.loc(m, x), f"{name}/diff-intact-until-patch", f"`{norm(x)[:50]}` runs before the patch is built and {callee} may mutate the diff it is given "
+                       f"({site.how[:80]} at {site.at()}): the nested rows it removes are gone from the diff make_pre then reads for the patch", key_text="mutated-before-patch")
+        else:
+            c.holds("C16.R4", repo.loc(m, fn), f"{name}/diff-intact-until-patch", "nothing that may mutate the diff touches it before the patch is built")
